@@ -97,7 +97,12 @@ def rand_case(rng, max_o, max_s, max_f, p_incons=0.15, p_pres=0.15):
     if rng.random() < p_pres:
         orders = LB.compatible_orders(O)
         if orders:
-            pres = rng.choice(orders)
+            pres = list(rng.choice(orders))
+            if rng.random() < 0.4:
+                # the prescribed root may hold families no leaf carries (a proper supersequence of every leaf synteny)
+                extra_f = [f for f in range(1, 8) if f not in pres]
+                for f in rng.sample(extra_f, min(len(extra_f), rng.randint(1, 2))):
+                    pres.insert(rng.randrange(len(pres) + 1), f)
     c = dict(rng.choice(GRID)) if rng.random() < 0.6 else R.rand_costs(rng)
     case = {"S": S, "O": O, "costs": c, "pres": pres}
     if rng.random() < 0.4:    # family names of different lengths / cases (the model knows families as numbers only)
@@ -233,7 +238,7 @@ def oracle(case, r):
                 return False, f"{name}: no root order is compatible with all leaves, yet {len(got)} solutions were returned"
             continue
         for sol in got:
-            ok, why = LB.valid_ordered(S, O, sol)
+            ok, why = LB.valid_ordered(S, O, sol, pres=case.get("pres"))
             if not ok:
                 return False, f"{name}: invalid solution returned: {why}"
         m, opt = LB.best_ordered(S, O, c, orders, lca_only=lca_only)
